@@ -2,7 +2,9 @@ import NauyacaVerif.Fs.Tree
 namespace Fs
 
 /-! ## abstract OS interface used by the handlers (all paths absolute, as components) -/
-inductive Kind where | file | dir | other | missing
+inductive Kind where
+  | file | dir | other | missing
+  | error      -- `stat` raised an `OSError` that pathlib does not swallow (ENAMETOOLONG)
 deriving Repr, DecidableEq
 
 inductive ReadResult where
@@ -11,7 +13,7 @@ inductive ReadResult where
 deriving Repr, DecidableEq
 
 structure OS where
-  /-- `Path.resolve()`: none = raised (symlink loop, embedded NUL, name too long) -/
+  /-- `Path.resolve()`: none = raised (symlink loop, embedded NUL) -/
   resolve : Path → Option Path
   /-- `stat`-based kind of a path (follows symlinks) -/
   kind : Path → Kind
@@ -26,18 +28,27 @@ structure SCfg where
   listingOn : Bool
   maxSize : Nat
 
+/-- why a 40 was returned -/
+inductive Fail where
+  | notUtf8      -- "File encoding error (not UTF-8)"
+  | denied       -- "Permission denied"
+  | ioError      -- "Server error: " ++ str(e)
+  | listing      -- "Error generating directory listing: " ++ str(e)
+deriving Repr, DecidableEq
+
 inductive SResp where
   | file (p : Path) (id : Nat)     -- 20 with the content of the file at resolved location p
   | listing (p : Path) (names : List Name)
   | notFound                        -- 51
   | tooLarge                        -- 50
-  | tempFail                        -- 40 (encoding, permission, other)
+  | tempFail (why : Fail)           -- 40
+  | raised                          -- `handle` itself raised (the protocol layer answers 40)
 deriving Repr, DecidableEq
 
 def inside (root p : Path) : Bool := root.isPrefixOf p
 
 /-- index lookup in a directory: first index name that is a regular file whose *resolved*
-    location is still inside the root (repaired) -/
+    location is still inside the root -/
 def findIndex (os : OS) (cfg : SCfg) (dir : Path) : List Name → Option Path
   | [] => none
   | n :: ns =>
@@ -53,24 +64,72 @@ def serveFile (os : OS) (cfg : SCfg) (p : Path) : SResp :=
   else if os.size p > cfg.maxSize then .tooLarge
   else match os.readText p with
     | .ok id => .file p id
-    | _ => .tempFail
+    | .notUtf8 => .tempFail .notUtf8
+    | .denied => .tempFail .denied
+    | .ioError => .tempFail .ioError
 
-/-- `StaticFileHandler.handle` on the canonical path components -/
-def handle (os : OS) (cfg : SCfg) (comps : List Name) : SResp :=
+/-- what is done with a directory `fp` inside the root -/
+def serveDir (os : OS) (cfg : SCfg) (fp : Path) : SResp :=
+  match findIndex os cfg fp cfg.indices with
+  | some ip => serveFile os cfg ip
+  | none =>
+    if cfg.listingOn then
+      match os.listing fp with
+      | some names => .listing fp names
+      | none => .tempFail .listing
+    else .notFound
+
+/-- `StaticFileHandler.handle` on the canonical path: its segments and whether it ends in `/` -/
+def handle (os : OS) (cfg : SCfg) (comps : List Name) (trailing : Bool) : SResp :=
   match os.resolve (cfg.root ++ comps) with
   | none => .notFound
   | some fp =>
     if !inside cfg.root fp then .notFound
-    else if os.kind fp = .dir then
-      match findIndex os cfg fp cfg.indices with
-      | some ip => serveFile os cfg ip
-      | none =>
-        if cfg.listingOn then
-          match os.listing fp with
-          | some names => .listing fp names
-          | none => .tempFail
-        else .notFound
+    else if os.kind fp = .error then .raised
+    else if trailing && os.kind fp != .dir then .notFound
+    else if os.kind fp = .dir then serveDir os cfg fp
     else serveFile os cfg fp
+
+/-! ### what goes on the wire -/
+inductive Body where
+  | fileOf (id : Nat)
+  | listingOf (p : Path) (names : List Name)
+deriving Repr, DecidableEq
+
+def SResp.status : SResp → Nat
+  | .file _ _ => 20 | .listing _ _ => 20 | .notFound => 51 | .tooLarge => 50 | .tempFail _ => 40 | .raised => 40
+
+def SResp.success (r : SResp) : Bool := r.status == 20
+
+def SResp.body : SResp → Option Body
+  | .file _ id => some (.fileOf id)
+  | .listing p names => some (.listingOf p names)
+  | _ => none
+
+def metaNotFound : List Nat := [78, 111, 116, 32, 102, 111, 117, 110, 100]
+def metaTooLarge : List Nat :=
+  [70, 105, 108, 101, 32, 116, 111, 111, 32, 108, 97, 114, 103, 101, 32, 45, 32, 117, 115, 101, 32, 97, 108, 116,
+   101, 114, 110, 97, 116, 105, 118, 101, 32, 112, 114, 111, 116, 111, 99, 111, 108]
+def metaNotUtf8 : List Nat :=
+  [70, 105, 108, 101, 32, 101, 110, 99, 111, 100, 105, 110, 103, 32, 101, 114, 114, 111, 114, 32, 40, 110, 111,
+   116, 32, 85, 84, 70, 45, 56, 41]
+def metaDenied : List Nat := [80, 101, 114, 109, 105, 115, 115, 105, 111, 110, 32, 100, 101, 110, 105, 101, 100]
+def metaServerError : List Nat := [83, 101, 114, 118, 101, 114, 32, 101, 114, 114, 111, 114, 58, 32]
+def metaListingError : List Nat :=
+  [69, 114, 114, 111, 114, 32, 103, 101, 110, 101, 114, 97, 116, 105, 110, 103, 32, 100, 105, 114, 101, 99, 116,
+   111, 114, 121, 32, 108, 105, 115, 116, 105, 110, 103, 58, 32]
+
+/-- the meta of a non-success response; `exc` = `str(e)` of the exception caught (the operating
+    system's error text: errno message and the path, never file content) -/
+def SResp.errMeta (exc : List Nat) : SResp → List Nat
+  | .notFound => metaNotFound
+  | .tooLarge => metaTooLarge
+  | .tempFail .notUtf8 => metaNotUtf8
+  | .tempFail .denied => metaDenied
+  | .tempFail .ioError => metaServerError ++ exc
+  | .tempFail .listing => metaListingError ++ exc
+  | .raised => metaServerError ++ exc
+  | _ => []
 
 /-! ### C02 safety: everything delivered was resolved and lies inside the root -/
 def Resolved (os : OS) (p : Path) : Prop := ∃ q, os.resolve q = some p
@@ -91,68 +150,111 @@ theorem findIndex_inside (os : OS) (cfg : SCfg) (dir : Path) (ns : List Name) (i
     · exact ih h
 
 theorem serveFile_file (os : OS) (cfg : SCfg) (p q : Path) (id : Nat) (h : serveFile os cfg p = .file q id) :
-    q = p ∧ os.readText p = .ok id := by
+    q = p ∧ os.readText p = .ok id ∧ os.kind p = .file ∧ os.size p ≤ cfg.maxSize := by
   unfold serveFile at h
   split at h
   · simp at h
-  · split at h
+  · rename_i hk
+    split at h
     · simp at h
-    · split at h
-      · simp at h; exact ⟨h.1.symm, by rename_i he; rw [he, h.2]⟩
+    · rename_i hsz
+      split at h
+      · rename_i he
+        simp at h
+        exact ⟨h.1.symm, by rw [he, h.2], by simpa using hk, by omega⟩
+      all_goals simp at h
+
+theorem serveFile_not_listing (os : OS) (cfg : SCfg) (p q : Path) (names : List Name) :
+    serveFile os cfg p ≠ .listing q names := by
+  unfold serveFile
+  split
+  · simp
+  · split
+    · simp
+    · split <;> simp
+
+theorem serveDir_file (os : OS) (cfg : SCfg) (fp p : Path) (id : Nat) (h : serveDir os cfg fp = .file p id) :
+    ∃ ip, findIndex os cfg fp cfg.indices = some ip ∧ serveFile os cfg ip = .file p id := by
+  unfold serveDir at h
+  split at h
+  · rename_i ip hip; exact ⟨ip, hip, h⟩
+  · split at h
+    · split at h <;> simp at h
+    · simp at h
+
+theorem serveDir_listing (os : OS) (cfg : SCfg) (fp p : Path) (names : List Name)
+    (h : serveDir os cfg fp = .listing p names) :
+    p = fp ∧ cfg.listingOn = true ∧ os.listing fp = some names ∧ findIndex os cfg fp cfg.indices = none := by
+  unfold serveDir at h
+  split at h
+  · exact absurd h (serveFile_not_listing _ _ _ _ _)
+  · rename_i hnone
+    split at h
+    · rename_i hl
+      split at h
+      · rename_i ns hns
+        simp at h
+        exact ⟨h.1.symm, hl, by rw [hns, h.2], hnone⟩
       · simp at h
+    · simp at h
+
+/-- the shape of `handle` once the path resolved inside the root -/
+theorem handle_cases (os : OS) (cfg : SCfg) (comps : List Name) (trailing : Bool) (r : SResp)
+    (h : handle os cfg comps trailing = r) :
+    r = .notFound ∨ r = .raised ∨
+    ∃ fp, os.resolve (cfg.root ++ comps) = some fp ∧ inside cfg.root fp = true ∧
+      ((os.kind fp = .dir ∧ r = serveDir os cfg fp) ∨
+       (os.kind fp ≠ .dir ∧ trailing = false ∧ r = serveFile os cfg fp)) := by
+  unfold handle at h
+  split at h
+  · exact Or.inl h.symm
+  · rename_i fp hfp
+    split at h
+    · exact Or.inl h.symm
+    · rename_i hin
+      have hin' : inside cfg.root fp = true := by simpa using hin
+      split at h
+      · exact Or.inr (Or.inl h.symm)
+      · split at h
+        · exact Or.inl h.symm
+        · rename_i htr
+          split at h
+          · rename_i hd
+            exact Or.inr (Or.inr ⟨fp, hfp, hin', Or.inl ⟨hd, h.symm⟩⟩)
+          · rename_i hd
+            refine Or.inr (Or.inr ⟨fp, hfp, hin', Or.inr ⟨hd, ?_, h.symm⟩⟩)
+            cases trailing with
+            | false => rfl
+            | true =>
+              exfalso; apply htr
+              simp only [Bool.true_and, bne_iff_ne, ne_eq]
+              exact hd
 
 /-- C02: a success response carries a file or a listing whose fully resolved location lies
     inside the document root -/
-theorem static_contained (os : OS) (cfg : SCfg) (comps : List Name) :
-    (∀ p id, handle os cfg comps = .file p id → inside cfg.root p = true ∧ Resolved os p ∧ os.readText p = .ok id) ∧
-    (∀ p names, handle os cfg comps = .listing p names → inside cfg.root p = true ∧ Resolved os p) := by
-  unfold handle
+theorem static_contained (os : OS) (cfg : SCfg) (comps : List Name) (trailing : Bool) :
+    (∀ p id, handle os cfg comps trailing = .file p id →
+      inside cfg.root p = true ∧ Resolved os p ∧ os.readText p = .ok id) ∧
+    (∀ p names, handle os cfg comps trailing = .listing p names →
+      inside cfg.root p = true ∧ Resolved os p ∧ os.listing p = some names) := by
   constructor
   · intro p id h
-    split at h
-    · simp at h
-    · rename_i fp hfp
-      split at h
-      · simp at h
-      · rename_i hin
-        have hin' : inside cfg.root fp = true := by simpa using hin
-        split at h
-        · split at h
-          · rename_i ip hip
-            obtain ⟨rfl, hr⟩ := serveFile_file os cfg ip p id h
-            have := findIndex_inside os cfg fp cfg.indices _ hip
-            exact ⟨this.1, this.2, hr⟩
-          · split at h
-            · split at h <;> simp at h
-            · simp at h
-        · obtain ⟨rfl, hr⟩ := serveFile_file os cfg fp p id h
-          exact ⟨hin', ⟨_, hfp⟩, hr⟩
+    rcases handle_cases os cfg comps trailing _ h with h1 | h1 | ⟨fp, hfp, hin, hc⟩
+    · cases h1
+    · cases h1
+    · rcases hc with ⟨_, hr⟩ | ⟨_, _, hr⟩
+      · obtain ⟨ip, hip, hs⟩ := serveDir_file os cfg fp p id hr.symm
+        obtain ⟨rfl, hrd, _, _⟩ := serveFile_file os cfg ip p id hs
+        have := findIndex_inside os cfg fp cfg.indices _ hip
+        exact ⟨this.1, this.2, hrd⟩
+      · obtain ⟨rfl, hrd, _, _⟩ := serveFile_file os cfg fp p id hr.symm
+        exact ⟨hin, ⟨_, hfp⟩, hrd⟩
   · intro p names h
-    split at h
-    · simp at h
-    · rename_i fp hfp
-      split at h
-      · simp at h
-      · rename_i hin
-        have hin' : inside cfg.root fp = true := by simpa using hin
-        split at h
-        · split at h
-          · rename_i ip _
-            unfold serveFile at h
-            split at h
-            · simp at h
-            · split at h
-              · simp at h
-              · split at h <;> simp at h
-          · split at h
-            · split at h
-              · simp at h; exact h.1 ▸ ⟨hin', ⟨_, hfp⟩⟩
-              · simp at h
-            · simp at h
-        · unfold serveFile at h
-          split at h
-          · simp at h
-          · split at h
-            · simp at h
-            · split at h <;> simp at h
+    rcases handle_cases os cfg comps trailing _ h with h1 | h1 | ⟨fp, hfp, hin, hc⟩
+    · cases h1
+    · cases h1
+    · rcases hc with ⟨_, hr⟩ | ⟨_, _, hr⟩
+      · obtain ⟨rfl, _, hl, _⟩ := serveDir_listing os cfg fp p names hr.symm
+        exact ⟨hin, ⟨_, hfp⟩, hl⟩
+      · exact absurd hr.symm (serveFile_not_listing _ _ _ _ _)
 end Fs
